@@ -211,10 +211,11 @@ def gen_dir():
 
 def gen_sources():
     """Translators for tabular source, regenerated from the repository on every run."""
-    import gen_constants
+    import gen_constants, gen_accessors
     with Lock("gen" + repo_tag()):
         items, n_all = gen_constants.main(REPO, gen_dir())
-    return {"constants": items, "n_pub_const": n_all}
+        accs, ctors = gen_accessors.main(REPO, gen_dir())
+    return {"constants": items, "n_pub_const": n_all, "accessors": accs, "ctors": ctors}
 
 
 def compile_gen_theorems(name, extra_gen=()):
